@@ -258,6 +258,15 @@ func ruleQ(w *world.World, r *report.RuleResult) {
 				}
 			}
 		}
+		// Q2: inside the loop over the collection, every path from loading an element back to the loop
+		// header passes the pattern test of that element (no iteration skips the check)
+		if good != "" && len(bad) == 0 {
+			if where := elementCheckBypass(az, isElem); where != nil {
+				r.Fail(key+"|every-element-tested", w.InstrPos(where), fmt.Sprintf("in the loop over %s an iteration can return to the loop header without the element having been matched against the user's patterns (the check is skipped on some path, e.g. for elements already seen elsewhere): a resource named by the command escapes authorization", res))
+			} else {
+				r.OK(key+"|every-element-tested", w.Pos(az.Pos()), "every iteration over "+res+" matches its element against the user's patterns before the next iteration")
+			}
+		}
 		switch {
 		case len(bad) > 0:
 			r.Fail(key, bad[0], fmt.Sprintf("the %s check returns its error on the FALSE edge of Contains/ContainsFunc over the whole collection (at %s): the command is denied only when NO %s is allowed, so a command naming one allowed and one forbidden resource is authorized", res, strings.Join(bad, ", "), strings.ToLower(res)))
@@ -820,4 +829,88 @@ func ruleU5(w *world.World, r *report.RuleResult) {
 	} else {
 		r.Fail(key, w.InstrPos(upd), "a new connection's Authenticated flag is not the default user's NoPassword: connections start authenticated although a password is required (or the reverse)")
 	}
+}
+
+// elementCheckBypass: within the loop that loads elements accepted by isElem, is there a path from
+// an element load to the loop's back edge that passes no pattern test of an element (a call whose
+// operands derive from the element: ContainsFunc with a closure capturing it, Match(elem), ...)?
+// Returns the last instruction of the offending back-edge predecessor, or nil.
+func elementCheckBypass(fn *ssa.Function, isElem func(ssa.Value) bool) ssa.Instruction {
+	const TESTED world.Facts = 1
+	// element loads
+	var loads []ssa.Instruction
+	for _, b := range fn.Blocks {
+		for _, in := range b.Instrs {
+			if v, ok := in.(ssa.Value); ok && isElem(v) {
+				loads = append(loads, in)
+			}
+		}
+	}
+	if len(loads) == 0 {
+		return nil
+	}
+	isTest := func(in ssa.Instruction) bool {
+		c, ok := in.(*ssa.Call)
+		if !ok {
+			return false
+		}
+		if _, isBuiltin := c.Call.Value.(*ssa.Builtin); isBuiltin {
+			return false
+		}
+		f := c.Call.StaticCallee()
+		name := ""
+		if f != nil {
+			name = f.String()
+		} else if c.Call.IsInvoke() {
+			name = c.Call.Method.Name()
+		}
+		if !(strings.HasPrefix(name, "slices.ContainsFunc") || strings.HasPrefix(name, "slices.Contains[") || name == "Match" || strings.HasPrefix(name, "slices.IndexFunc")) {
+			return false
+		}
+		for _, a := range c.Call.Args {
+			if derivesFrom(a, isElem, 0) {
+				return true
+			}
+		}
+		return false
+	}
+	gen := func(in ssa.Instruction) world.Facts {
+		if isTest(in) {
+			return TESTED
+		}
+		return 0
+	}
+	kill := func(in ssa.Instruction) world.Facts {
+		for _, l := range loads {
+			if in == l {
+				return TESTED
+			}
+		}
+		return 0
+	}
+	must := world.Must(fn, nil, gen, kill)
+	for _, l := range loads {
+		// loop header: the block that dominates the load's block and has a back edge from a block it dominates
+		body := l.Block()
+		for _, h := range fn.Blocks {
+			if !h.Dominates(body) {
+				continue
+			}
+			for _, p := range h.Preds {
+				if !h.Dominates(p) || !body.Dominates(p) && p != body {
+					continue
+				}
+				// facts at the end of p
+				f := must[p]
+				for _, in := range p.Instrs {
+					f &^= kill(in)
+					f |= gen(in)
+				}
+				if f&TESTED == 0 && len(p.Instrs) > 0 {
+					return p.Instrs[len(p.Instrs)-1]
+				}
+			}
+		}
+	}
+	return nil
 }
